@@ -225,7 +225,7 @@ def plan(tier, seed):
     q = tier == "quick"
     items = []
     for k in ("retry", "poll", "throttle", "timeout"):
-        items.append(dict(scenario="threads", params=dict(kind=k), bounds=dict(P=3 if q else 4)))
+        items.append(dict(scenario="threads", params=dict(kind=k), bounds=dict(P=3 if q else 5)))
         if k == "retry":
             items.append(dict(scenario="threads", params=dict(kind=k, backoff=True), bounds=dict(P=1 if q else 2)))
         items.append(dict(scenario="refs", params=dict(kind=k, n=2 if q else 3), bounds=dict(P=0)))
